@@ -379,8 +379,25 @@ def check_order_arbitrary_lists(res, all_lcs, scope) -> int:
           continue
         seen.add(sig)
         n += 1
+        part_of_prefix_scan = False
+        if af.const == -1:
+          # `list[g - 1]` as the first step of a scan of the whole prefix list[0:g]: the same kernel also reads the same
+          # dimension at a loop variable running over range(g - 1) - together every earlier entry is visited, so the
+          # result depends on the set of earlier entries only
+          pos = atoms[0][0]
+          for b in lc.keval.accesses:
+            if b.is_write or array_key(lc, b.root) != key or len(b.idx) <= k:
+              continue
+            j = b.idx[k]
+            if isinstance(j, T) and j.op == "lv":
+              info = lc.keval.loops.get(j.args[0], {})
+              lo, hi = info.get("lo"), info.get("hi")
+              if isinstance(lo, T) and lo.op == "c" and lo.args[0] == 0 and isinstance(hi, T):
+                ah = affine(hi)
+                if ah.const == -1 and list(ah.coef.items()) == [(pos, 1)]:
+                  part_of_prefix_scan = True
         res.ob(
-          af.const == 0,
+          af.const == 0 or part_of_prefix_scan,
           f"{lc.name}|{key}|dim{k}|{'neighbour' if af.const else 'own-position'}",
           Finding(
             "R-RACE.6",
